@@ -34,8 +34,8 @@ RULES = {
     "C27": [("sa.rules.b1", "r_C27"), ("sa.rules.c25", "r_C27d"), ("sa.rules.c25", "r_who_writes"), ("sa.rules.cmeta", "r_modelparams"), ("sa.rules.c17e", "r_C17importuri"), ("sa.rules.cmeta", "r_modelfromfile"), ("sa.rules.c17e", "r_C15eval"), ("sa.rules.cmeta", "r_modelfromstr"), ("sa.rules.cmeta", "r_internalload")],
     "C28": [("sa.rules.b7", "r_origin"), ("sa.rules.b3", "r_C28b_C33b_C30bc"), ("sa.rules.cmisc", "r_C06bcd"), ("sa.rules.c25", "r_C28cd"), ("sa.rules.c25", "r_C28e"), ("sa.rules.c25", "r_C28f"), ("sa.rules.cmisc", "r_C13d_C34f_C09d"), ("sa.rules.cres", "r_resolver"), ("sa.rules.c17e", "r_C17importuri"), ("sa.rules.cpn", "r_processnode"), ("sa.rules.cdrv", "r_driver"), ("sa.rules.c16", "r_cachekeys"), ("sa.rules.c17e", "r_C17eval"), ("sa.rules.c17", "r_C18i"), ("sa.rules.cmeta", "r_modelfromstr")],
     "C29": [("sa.rules.b5", "r_C29"), ("sa.rules.c29", "r_export2"), ("sa.rules.c29", "r_C29e"), ("sa.rules.c29", "r_C31d_C29f"), ("sa.rules.b4", "r_ledger"), ("sa.rules.b5", "r_modelexport")],
-    "C30": [("sa.rules.c13", "r_C13eval"), ("sa.rules.b3", "r_C28b_C33b_C30bc"), ("sa.rules.c29", "r_cli2"), ("sa.rules.c26", "r_C26eval"), ("sa.rules.c26", "r_C26state"), ("sa.rules.b1", "r_C33a"), ("sa.rules.gen", "r_records")],
-    "C31": [("sa.rules.b4", "r_ledger"), ("sa.rules.c14", "r_ledger2"), ("sa.rules.c29", "r_export2"), ("sa.rules.c29", "r_C31d_C29f")],
+    "C30": [("sa.rules.c13", "r_C13eval"), ("sa.rules.b3", "r_C28b_C33b_C30bc"), ("sa.rules.c29", "r_cli2"), ("sa.rules.c26", "r_C26eval"), ("sa.rules.c26", "r_C26state"), ("sa.rules.b1", "r_C33a"), ("sa.rules.gen", "r_records"), ("sa.rules.c29", "r_signals")],
+    "C31": [("sa.rules.b4", "r_ledger"), ("sa.rules.c14", "r_ledger2"), ("sa.rules.c29", "r_export2"), ("sa.rules.c29", "r_C31d_C29f"), ("sa.rules.c29", "r_signals")],
     "C32": [("sa.rules.c32", "r_C32"), ("sa.rules.c32", "r_C32c"), ("sa.rules.c32", "r_C32de"), ("sa.rules.c01e", "r_C01visitors"), ("sa.rules.cpn", "r_processnode"), ("sa.rules.cdrv", "r_driver"), ("sa.rules.c12", "r_C12b")],
     "C33": [("sa.rules.b1", "r_C33a"), ("sa.rules.b7", "r_origin"), ("sa.rules.c13", "r_C13eval"), ("sa.rules.b3", "r_C28b_C33b_C30bc"), ("sa.rules.c29", "r_C33c_C34g"), ("sa.rules.cmisc", "r_C06bcd"), ("sa.rules.cpn", "r_processnode"), ("sa.rules.cdrv", "r_driver"), ("sa.rules.cres", "r_resolver"), ("sa.rules.c16", "r_cachekeys"), ("sa.rules.c25", "r_C28f"), ("sa.rules.b4", "r_ledger"), ("sa.rules.c14", "r_ledger2"), ("sa.rules.cmeta", "r_modelfromstr"), ("sa.rules.c14", "r_C15i")],
     "C34": [("sa.rules.b3", "r_C08_C34"), ("sa.rules.cmisc", "r_C13d_C34f_C09d"), ("sa.rules.c29", "r_C33c_C34g"), ("sa.rules.cmisc", "r_C06bcd"), ("sa.rules.c25", "r_who_writes"), ("sa.rules.c05", "r_C05cde"), ("sa.rules.cres", "r_resolver"), ("sa.rules.cpn", "r_processnode"), ("sa.rules.cdrv", "r_driver"), ("sa.rules.c14", "r_C14inst"), ("sa.rules.cmeta", "r_internalload")],
